@@ -164,6 +164,25 @@ func solveOne(o *Obl, file string, timeout int, tier string) {
 		// reachability covers: one solver, short timeout; unknown is accepted
 		res, out, secs := runSolver(solvers[0], file, 3)
 		o.Result, o.Solver, o.Secs, o.Out = res, solvers[0].name, secs, out
+		if res == "unsat" && o.PrePrefix > 0 {
+			// relative cover: the path is infeasible after the step. That is a vacuity failure only if it was feasible before.
+			before := *o
+			before.Prefix, before.PrePrefix = o.PrePrefix, 0
+			renderMu.Lock()
+			txt := before.script(false)
+			renderMu.Unlock()
+			bf := file + ".before.smt2"
+			os.WriteFile(bf, []byte(txt), 0o644)
+			r2, _, s2 := runSolver(solvers[0], bf, 10)
+			o.Secs += s2
+			if r2 == "unsat" || r2 == "error" {
+				// already infeasible before the step (dead path): not attributable to the step
+				o.Result = "unknown"
+				o.Out = "path infeasible after the step and already before it (" + r2 + "): dead path, not counted"
+			} else {
+				o.Out = "the path is feasible before this step and infeasible after it: the assumptions introduced by the step (a callee's ensures) are contradictory here\n" + out
+			}
+		}
 		return
 	}
 	// first solver
